@@ -26,7 +26,10 @@ RULE = ("runtime audit of the real code: (a) first cases of the C01-C07, C10, C2
         "write/truncate and with an audit hook attributing open/remove/rename/mkdir/truncate/... events to dissect.hypervisor frames; "
         "(b) envelope decrypt, Hyper-V parse (clean and with outstanding replay-log entries), VMX parse + unlock, OVF/VBox/PVS over "
         "recording io.BytesIO/StringIO handles whose content is compared afterwards; (c) the decrypt tool in a temp directory "
-        "(the only allowed mutation: the --output file). Expected: the observed trace is all read-only and every path open maps to "
+        "(the only allowed mutation: the --output file); (d) disk images (VMDK sparse / flat / multi-extent / descriptor, QCOW2, VHD, VDI, HDS) materialised in a "
+        "temp directory and handed over as handles the caller opened itself: open() rb / r+b / w+b / a+b, unbuffered FileIO, NamedTemporaryFile, "
+        "recording Buffered* subclasses; every open made from a library frame is checked for write mode / flags, content + size + mtime of every "
+        "file compared before / after. Expected: the observed trace is all read-only and every path open maps to "
         "a site of the extracted call-site table. Non-trivial = the trace contains at least one read on a handle or one path open.")
 ASSUMPTIONS = ["Python-level effects only: sys audit events + method calls on the handles we supply; effects inside C extensions that "
                "raise no audit event are invisible", "the static table covers calls visible in the AST (no dynamic dispatch: checked by the table itself)"]
@@ -152,6 +155,230 @@ class RecStringIO(io.StringIO):
 def _sites():
     fp = json.loads((core.LEAN / "Hv" / "Extracted.fingerprint.json").read_text())
     return {(s[0], s[1]) for s in fp.get("effects.sites", []) if s[3] in ("open-path", "read_text", "read_bytes", "open-cli-output")}
+
+
+
+# --------------------------------------------------------------------------- real-file handles (caller-opened, incl. for update)
+
+REALFH_MODS = [("c02", 14), ("c10", 12), ("c01", 5), ("c04", 5), ("c05", 5), ("c06", 5)]
+# how the caller obtained the handle it passes in: (kind, mode). "open" = builtin open(); "rec" = a subclass of the very
+# io.Buffered* class open() returns (still .raw = io.FileIO, .name, .mode) that counts reads and records write/truncate;
+# "raw" = unbuffered io.FileIO; "ntf" = tempfile.NamedTemporaryFile (mode "rb+")
+REALFH_KINDS = [("open", "rb"), ("open", "r+b"), ("rec", "r+b"), ("open", "r+b"), ("rec", "rb"), ("open", "w+b"), ("open", "a+b"),
+                ("raw", "r+b"), ("ntf", "w+b"), ("open", "r+b"), ("raw", "rb"), ("rec", "r+b")]
+REALFH_MAX_DATA = 24 << 20
+REALFH_MAX_SIZE = 1 << 42
+
+
+def _realfh_cases(rng, seed, mult):
+    """the first cases of the disk-format workloads whose images are small enough to be materialised, each paired with a way the
+    caller opened the file. VMDK first (bare extents of every kind, flat, multi-extent lists, descriptor files)."""
+    out = []
+    k = 0
+    for mod, n in REALFH_MODS:
+        m = importlib.import_module(mod)
+        sub = [c for c in m.generate(seed, "quick") if c.get("align", 8192) == 8192 and c.get("fam", "vmdk") == "vmdk"]
+        rng.shuffle(sub)
+        took = 0
+        for sc in sub:
+            if took >= n * mult:
+                break
+            try:
+                ims = list(m.build(sc).files.values())
+            except Exception:  # noqa
+                continue
+            if not ims or sum(sn for im in ims for _, sn, _, _ in im.segs) > REALFH_MAX_DATA or max(im.size for im in ims) > REALFH_MAX_SIZE:
+                continue
+            kind, mode = REALFH_KINDS[k % len(REALFH_KINDS)]
+            k += 1
+            took += 1
+            sc = dict(sc, queries=sc.get("queries", [])[:4])
+            out.append({"id": f"realfh-{mod}-{sc['id']}-{kind}-{mode}", "fam": "realfh", "mod": mod, "sub": sc, "kind": kind, "mode": mode,
+                        "recipe": {"mod": mod, "sub": sc.get("recipe"), "fam": "realfh", "kind": kind, "mode": mode}, "queries": []})
+    return out
+
+
+def _content_digest(path):
+    """(size, digest of the non-zero 64 KiB blocks) of a possibly sparse file; independent of its hole layout"""
+    import hashlib
+    blk = 1 << 16
+    h = hashlib.sha256()
+    size = os.path.getsize(path)
+    fd = os.open(path, os.O_RDONLY)
+    try:
+        pos = 0
+        while pos < size:
+            try:
+                a = os.lseek(fd, pos, os.SEEK_DATA)
+            except OSError:
+                break
+            try:
+                e = os.lseek(fd, a, os.SEEK_HOLE)
+            except OSError:
+                e = size
+            b = a // blk
+            while b * blk < e:
+                d = os.pread(fd, blk, b * blk)
+                if d.strip(b"\0"):
+                    h.update(b.to_bytes(8, "little") + d)
+                b += 1
+            pos = max(e, b * blk)
+    finally:
+        os.close(fd)
+    return size, h.hexdigest()
+
+
+class _RecRandom(io.BufferedRandom):
+    """what open(p, "r+b") returns (io.BufferedRandom over io.FileIO), counting reads and recording write / truncate"""
+    muts: list
+    reads = 0
+
+    def read(self, *a):
+        self.reads += 1
+        return super().read(*a)
+
+    def readinto(self, b):
+        self.reads += 1
+        return super().readinto(b)
+
+    def write(self, b):
+        self.muts.append("write")
+        return super().write(b)
+
+    def truncate(self, *a):
+        self.muts.append("truncate")
+        return super().truncate(*a)
+
+
+class _RecReader(io.BufferedReader):
+    """what open(p, "rb") returns, counting reads"""
+    muts: list
+    reads = 0
+
+    def read(self, *a):
+        self.reads += 1
+        return super().read(*a)
+
+    def readinto(self, b):
+        self.reads += 1
+        return super().readinto(b)
+
+
+def _realfh_run(case, err):
+    """run the wrapped workload with every image materialised as a real file in a temp directory and handed to the library as a
+    handle the *caller* opened (case["kind"], case["mode"]). Observed: audit events (every open made from a library frame, with
+    its mode / flags), write / truncate calls on recording handles, content + size + mtime of every file before / after.
+    The caller's own opens are made from harness frames (no library frame on the stack) and are therefore not attributed."""
+    import shutil
+    import tempfile
+
+    kind, mode = case["kind"], case["mode"]
+    m = importlib.import_module(case["mod"])
+    sc = case["sub"]
+    ib = m.build(sc)
+    if (kind == "ntf" or mode == "w+b") and max(im.size for im in ib.files.values()) > (64 << 20):
+        kind, mode = "open", "r+b"         # these two copy the content through the handle, which would expand the holes
+    d = tempfile.mkdtemp(prefix="hvc09r.")
+    opened, before = [], {}                # [(path, handle)], {path: (size, digest, mtime)}
+    hmuts, reads, events = [], 0, []
+
+    def state(p):
+        return _content_digest(p) + (os.stat(p).st_mtime_ns,)
+
+    def caller_open(path, im):
+        """the caller's side: bring the file into existence and open it the way the case says"""
+        if kind == "ntf" or mode == "w+b":
+            srcp = path + ".src"
+            im.write_to(srcp)
+            if kind == "ntf":
+                fh = tempfile.NamedTemporaryFile(dir=os.path.dirname(path), suffix="." + os.path.basename(path))
+                path = fh.name
+            else:
+                fh = open(path, "w+b")
+            with open(srcp, "rb") as src:
+                shutil.copyfileobj(src, fh, 1 << 20)
+            os.unlink(srcp)
+            fh.flush()
+            fh.seek(0)
+        else:
+            im.write_to(path)
+            if kind == "open":
+                fh = open(path, mode)
+            elif kind == "raw":
+                fh = open(path, mode, buffering=0)
+            else:
+                fh = _RecRandom(io.FileIO(path, "r+")) if "+" in mode else _RecReader(io.FileIO(path, "r"))
+                fh.muts = []
+            fh.seek(0)
+        opened.append((path, fh))
+        before[path] = state(path)
+        return fh
+
+    def image_open(self, name=None, log=None):
+        sub = os.path.join(d, f"h{len(opened)}")
+        os.mkdir(sub)
+        return caller_open(os.path.join(sub, os.path.basename(str(name)) if name else "image.bin"), self)
+
+    orig_open = sparse.Image.open
+    try:
+        sparse.Image.open = image_open
+        if case["mod"] == "c10" and sc["recipe"]["mode"] == "descriptor":
+            # a descriptor file and its extents live in one directory; only the descriptor is handed over as a handle
+            t = ib.t
+            sub = os.path.join(d, "disk")
+            os.mkdir(sub)
+            for name, im in t.files.items():
+                if name != t.descriptor_name:
+                    im.write_to(os.path.join(sub, name))
+                    before[os.path.join(sub, name)] = state(os.path.join(sub, name))
+            dfh = caller_open(os.path.join(sub, t.descriptor_name), t.files[t.descriptor_name])
+
+            def runner():
+                from dissect.hypervisor.disk.vmdk import VMDK
+                return core.impl_ops_sec(VMDK(dfh), sc["queries"])
+        else:
+            def runner():
+                return m.impl_run(sc, ib)
+        audit_start()
+        try:
+            try:
+                r = runner()
+                if isinstance(r, dict) and r.get("errors"):
+                    err["q"] = str(list(r["errors"].values())[0])[:200]
+            except Exception as e:  # noqa
+                err["0"] = f"{type(e).__name__}: {e}"[:200]
+        finally:
+            events = audit_stop()
+        for p, fh in opened:
+            if hasattr(fh, "muts"):
+                hmuts += [(f"handle-{mu}:" + os.path.basename(p), 0, 0) for mu in fh.muts]
+                reads += fh.reads
+            elif not fh.closed and fh.tell() != 0:
+                reads += 1
+            if not fh.closed and kind != "ntf":
+                fh.close()                 # anything the library left in a write buffer reaches the file now
+        after = {}
+        for root, _, files in os.walk(d):
+            for f in files:
+                after[os.path.join(root, f)] = state(os.path.join(root, f))
+        for p, v in before.items():
+            a = after.get(p)
+            if a is None:
+                hmuts.append(("removed:" + os.path.basename(p), 0, 0))
+            elif a[:2] != v[:2]:
+                hmuts.append(("content-changed:" + os.path.basename(p), 0, 0))
+            elif a[2] != v[2]:
+                hmuts.append(("mtime-changed:" + os.path.basename(p), 0, 0))
+        hmuts += [("created:" + os.path.basename(p), 0, 0) for p in after if p not in before]
+    finally:
+        sparse.Image.open = orig_open
+        for _, fh in opened:
+            try:
+                fh.close()
+            except Exception:  # noqa
+                pass
+        shutil.rmtree(d, ignore_errors=True)
+    return events, hmuts, reads
 
 
 # --------------------------------------------------------------------------- disk formats behind real files opened for update
@@ -311,6 +538,7 @@ def generate(seed, tier):
         fmt = ["vmx", "ovf", "vbox", "pvs"][i % 4]
         cases.append({"id": f"cfg-{fmt}-{i}", "fam": "config", "recipe": {"vm": gen_configs.gen_vm(rng), "fmt": fmt, "rseed": rng.getrandbits(32)}, "queries": []})
     cases += _rwfile_cases(seed, random.Random(f"C09/rwfile/{seed}/{tier}"), mult)
+    cases += _realfh_cases(random.Random(f"C09/realfh/{seed}/{tier}"), seed, mult)
     return cases
 
 
@@ -362,6 +590,8 @@ def impl_run(case, built):
                 events = audit_stop()
         elif fam == "rwfile":
             events = _rwfile_run(case, handles, err)
+        elif fam == "realfh":
+            events, hmuts, reads = _realfh_run(case, err)
         elif fam == "envelope":
             import gen_envelope
             b = gen_envelope.build(case["recipe"])
